@@ -5,8 +5,11 @@
    CalculateProviderScores kept must be allAddresses minus ignored minus no-data, in order; the real pick
    must be Selector!Select(scored, k, cell) for the logged draw cell; the mirrored math/rand value must
    equal the RNGValue the selector reports (ucmp = 0); real weights lie in [minChance, 1].
-   "lat" lines (Obs): a legal one-coordinate improvement never lowers the real CalculateScore and both
-   values lie in [minChance, 1]. *)
+   "lat" lines (Obs): for every (strategy, latency window kind, sync window kind) group - windows are fed
+   through the selector's getter interface, including degenerate / reversed / zero / negative / NaN /
+   infinite ones - a legal one-coordinate improvement never lowers the real CalculateScore, both values are
+   finite numbers in [minChance, 1], and an unusable window behaves like a switched-off getter.
+   "real" lines (Obs): draws with the group's real float weights obey the interval rule. *)
 EXTENDS Selector, IOUtils
 VARIABLE l
 Trace == ndJsonDeserialize(IOEnv.VERIF_TRACE)
@@ -28,8 +31,19 @@ ObsValid     == (l >= 1 /\ Cur.ev = "sel") =>
                   LET el == PS \ (ToSet(Cur.ignored) \cup ToSet(Cur.nodata)) IN
                     /\ (Cur.pick = "" \/ Cur.pick \in el) /\ (el # {} => Cur.pick # "")
 ObsWeights   == (l >= 1 /\ Cur.ev = "sel") => Cur.weightsOk
-ObsLattice   == (l >= 1 /\ Cur.ev = "lat") => (LegalPair(Cur.p) /\ Cur.cmp >= 0)
-ObsRange     == (l >= 1 /\ Cur.ev = "lat") => Cur.inRange
+ObsLattice   == (l >= 1 /\ Cur.ev = "lat") => (LegalPair(Cur.p) /\ LegalGroup(Cur.strategy, Cur.lw, Cur.sw) /\ Cur.cmp \in {0, 1})
+\* `finite` is logged explicitly: NaN compares false with everything, a bare range check would pass vacuously
+ObsRange     == (l >= 1 /\ Cur.ev = "lat") => (Cur.finite /\ Cur.inRange)
+\* a window the selector must not use behaves exactly like a switched-off getter
+ObsFallback  == (l >= 1 /\ Cur.ev = "lat") => /\ (~WindowUsable(Cur.lw) => Cur.eqOffL)
+                                              /\ (~WindowUsable(Cur.sw) => Cur.eqOffS)
+\* draws with the real (float) weights of the group: finite weights in range, and the pick owns the drawn
+\* value (three-way comparisons against the cumulative sums are computed by the driver in the code's order)
+ObsRealDraw  == (l >= 1 /\ Cur.ev = "real") =>
+                  /\ LegalGroup(Cur.strategy, Cur.lw, Cur.sw)
+                  /\ Cur.finite /\ Cur.inRange /\ Cur.n = 3
+                  /\ Cur.pick \in {"p1", "p2", "p3"} /\ Cur.idx >= 0
+                  /\ Cur.rngOk /\ Cur.ucmp = 0 /\ Cur.lowOk /\ Cur.highOk
 
 Post == LET d == TLCGet("stats").diameter IN PrintT(<<"HWM", d>>) /\ d = Len(Trace) + 1
 =============================================================================
